@@ -12,7 +12,7 @@ import (
 
 // ---- C14: Hosts matcher ---------------------------------------------------------------------------
 
-var hostLits = []string{"api.example.com", "www.example.com", "a.example.com", "b.example.com", "c.example.com", "d.example.com", "e.example.com", "example.com", "x.org", "api.x.org"}
+var hostLits = []string{"\u00e9cole.example.com", "\u043f\u0440\u0438\u043c\u0435\u0440.example.com", "api.example.com", "www.example.com", "a.example.com", "b.example.com", "c.example.com", "d.example.com", "e.example.com", "example.com", "x.org", "api.x.org"}
 var hostPats = []string{"{sub}.example.com", "{sub:[a-z]+}.example.com", "{n:\\d+}.example.com", "{sub:word}.example.com", "{a}.{b}.example.com", "{-ign}.x.org", "s.{zone}.example.com", "{w:digit}.x.org", "{any}"}
 
 func randCase(r *Rng, s string) string {
@@ -29,6 +29,19 @@ func randCase(r *Rng, s string) string {
 		}
 	}
 	return string(b)
+}
+
+// upperNonASCII upper-cases the non-ASCII letters of s and lower-cases the ASCII ones.
+func upperNonASCII(s string) string {
+	var sb strings.Builder
+	for _, c := range strings.ToLower(s) {
+		if c > 127 {
+			sb.WriteString(strings.ToUpper(string(c)))
+		} else {
+			sb.WriteRune(c)
+		}
+	}
+	return sb.String()
 }
 
 func normHost(h string) string {
@@ -153,6 +166,9 @@ func genC14(r *Rng, idx int, tier string) *World {
 				host = "q" + pick(r, hostLits)
 			}
 			host = randCase(r, host)
+			if r.Pct(25) {
+				host = upperNonASCII(host) // upper-case letters outside ASCII, possibly without any ASCII upper-case letter
+			}
 			switch r.Intn(8) {
 			case 0:
 				host += ":8080"
@@ -381,7 +397,19 @@ func buildMatcher(s *MSpec) mux.Matcher {
 	return nil
 }
 
+// interestingSpecs: shapes that random nesting reaches rarely - a composite that rejects after an
+// outer member captured a parameter of the SAME name, inside an Or that goes on.
+var interestingSpecs = []string{
+	"and(pv[ver,v1] | or(and(sim[/x,ver,] | hv[hver,9]) | nil[]))",
+	"and(sim[/x,ver,] | or(and(pv[ver,v1,v2] | hosts[nobody.com]) | sim[/,,]))",
+	"and(hosts[{sub}.c.com] | or(and(sim[/x,sub,] | hv[,9]) | pv[v,v1,v2]))",
+	"or(and(pv[ver,v1] | and(sim[/x,ver,/y] | hosts[nobody.com])) | pv[ver,v1])",
+}
+
 func genMSpec(r *Rng, depth int) *MSpec {
+	if depth == 1 && r.Pct(12) {
+		return decodeSpec(pick(r, interestingSpecs))
+	}
 	k := r.Intn(10)
 	if depth >= 3 && k >= 6 {
 		k = r.Intn(6)
@@ -445,7 +473,10 @@ func genC13(r *Rng, idx int, tier string) *World {
 				routers = append(routers, op.Name)
 			}
 			spec := genMSpec(r, 1)
-			op.Args = []string{encodeSpec(spec)}
+			op.Args = []string{encodeSpec(spec), ""}
+			if op.K == "gnew" && r.Pct(30) {
+				op.Args[1] = "trace" // this router (only) is created with a TRACE handler
+			}
 		case k < 38:
 			op.K, op.Name = "gremove", pick(r, routers)
 			if r.Pct(20) {
@@ -466,7 +497,7 @@ func genC13(r *Rng, idx int, tier string) *World {
 	}
 	nreq := r.Range(6, 20)
 	for i := 0; i < nreq; i++ {
-		q := Req{Method: pick(r, []string{"GET", "GET", "GET", "POST", "OPTIONS"}),
+		q := Req{Method: pick(r, []string{"GET", "GET", "GET", "POST", "OPTIONS", "TRACE"}),
 			Path: pick(r, []string{"", "/v1", "/v2", "/v11", "/v3", "/api"}) + pick(r, []string{"/x", "/x/5", "/y", "/y/zk", "/", "/api/7", "/nope", "/v1/x"}),
 			Host: pick(r, []string{"a.com", "b.com", "zz.c.com", "api.a.com", "d.com", "7.e.com", "other.org", "A.COM:80"})}
 		if r.Pct(50) {
@@ -565,7 +596,11 @@ func buildC13(w *World, upto int, only string) *c13Group {
 				}
 				var r *mux.Router[*Comp]
 				if op.K == "gnew" {
-					r = cg.g.New(op.Name, buildMatcher(spec))
+					var extra []mux.Option
+					if len(op.Args) > 1 && op.Args[1] == "trace" {
+						extra = append(extra, mux.WithTrace(env.TraceH(idTrace)))
+					}
+					r = cg.g.New(op.Name, buildMatcher(spec), extra...)
 				} else {
 					r = NewSimRouter(env, RouterOpts{Name: op.Name})
 					cg.g.Add(buildMatcher(spec), r)
